@@ -25,6 +25,7 @@ import (
 	"github.com/tink-crypto/tink-go/v2/secretdata"
 	"github.com/tink-crypto/tink-go/v2/signature"
 	"github.com/tink-crypto/tink-go/v2/streamingaead/aesctrhmac"
+	"github.com/tink-crypto/tink-go/v2/verifsim/catalog"
 	"github.com/tink-crypto/tink-go/v2/verifsim/core"
 	"github.com/tink-crypto/tink-go/v2/verifsim/simrng"
 	"github.com/tink-crypto/tink-go/v2/verifsim/stubkm"
@@ -37,7 +38,8 @@ func TestMain(m *testing.M) {
 	core.DeclareFaults("rng-id-collision-live", "rng-id-collision-dead", "rng-id-zero", "rng-id-max", "add-fails-after-id-draw")
 	core.DeclareProbes("redraw-loop-taken", "start-from-parsed-handle", "branch-to-earlier-handle", "refused-disable-primary", "refused-delete-primary",
 		"refused-setprimary-nonenabled", "op-on-absent-id", "addkey-idreq-collision", "addkey-idreq-kept", "same-key-twice", "readd-deleted-fixed-id",
-		"handle-fails-no-primary", "old-handle-reinspected", "enable-destroyed", "error-leaves-unchanged-checked", "nil-template", "unknown-prefix-template", "add-custom-key-type(legacy NewKeyData path)", "malformed-start-keyset-refused")
+		"handle-fails-no-primary", "old-handle-reinspected", "enable-destroyed", "error-leaves-unchanged-checked", "nil-template", "unknown-prefix-template", "add-custom-key-type(legacy NewKeyData path)", "malformed-start-keyset-refused",
+		"add-catalog-entry", "add-catalog-entry-with-id-requirement-but-no-prefix")
 	// "add-refused-after-scripted-collisions" and "manager-designated-primary-itself" cannot occur on today's tree; they
 	// are counted if an otherwise conforming manager ever does that
 	stubkm.Register()
@@ -571,11 +573,26 @@ func (w *world) step(op string) {
 				kt, pfx = withPrefix(kt, tinkpb.OutputPrefixType_RAW), "RAW"
 			}
 		}
+		// every key type, parameter set and variant of the catalog (not only the templates above) can be what gets added:
+		// e.g. ML-DSA's NO_PREFIX_WITH_PREHASH_ID variant is the only one whose template says neither RAW nor a
+		// prefixed type while its keys carry an ID requirement
+		var ceParams key.Parameters
+		if rapid.IntRange(0, 2).Draw(t, "fromCatalog") == 0 {
+			if e, ekt, ok := drawCatalogEntry(t); ok {
+				tpl.name, kt, pfx, ceParams = "catalog:"+e.Name, ekt, e.Variant, e.Params
+				r.Probe("add-catalog-entry")
+				if e.HasIDReq && kt.OutputPrefixType != tinkpb.OutputPrefixType_TINK && kt.OutputPrefixType != tinkpb.OutputPrefixType_CRUNCHY && kt.OutputPrefixType != tinkpb.OutputPrefixType_LEGACY {
+					r.Probe("add-catalog-entry-with-id-requirement-but-no-prefix")
+				}
+			}
+		}
 		w.scriptIDs()
 		scripted := g4(w.g)
 		var id uint32
 		var err error
-		if op == "Add" || strings.HasPrefix(tpl.name, "STUB-") {
+		if ceParams != nil && op == "AddParams" {
+			func() { defer w.catch("AddNewKeyFromParameters"); id, err = w.mgr.AddNewKeyFromParameters(ceParams) }()
+		} else if op == "Add" || strings.HasPrefix(tpl.name, "STUB-") {
 			op = "Add"
 			if strings.HasPrefix(tpl.name, "STUB-") {
 				r.Probe("add-custom-key-type(legacy NewKeyData path)")
@@ -796,6 +813,61 @@ func (w *world) step(op string) {
 }
 
 func g4(g *simrng.RNG) int { return g.ScriptLen() }
+
+// catalogUsable caches, per catalog entry, whether this tree can serialize its parameters to a template and generate a
+// key for it in a scratch manager (probed once per process under a throw-away RNG, so the run's own stream is not
+// consumed). Entries that cannot are left out: C11 does not say which parameters a manager must be able to add.
+var (
+	catalogUsable = map[string]*tinkpb.KeyTemplate{}
+	catalogTried  = map[string]bool{}
+	catalogPick   []catalog.Entry
+)
+
+func drawCatalogEntry(t *rapid.T) (catalog.Entry, *tinkpb.KeyTemplate, bool) {
+	if catalogPick == nil {
+		maxCost := 0
+		if core.Thorough() {
+			maxCost = 1
+		}
+		for _, e := range catalog.All() {
+			if e.Params != nil && catalog.Quirk(e) == "" && !e.RSABased() && (e.Cost <= maxCost || e.KeyType == "mldsa") {
+				catalogPick = append(catalogPick, e)
+			}
+		}
+	}
+	e := catalogPick[rapid.IntRange(0, len(catalogPick)-1).Draw(t, "catalogEntry")]
+	if !catalogTried[e.Name] {
+		catalogTried[e.Name] = true
+		func() {
+			defer func() { recover() }()
+			old := simrngSwap()
+			defer old()
+			kt, err := protoserialization.SerializeParameters(e.Params)
+			if err != nil {
+				return
+			}
+			m := keyset.NewManager()
+			if _, err := m.AddNewKeyFromParameters(e.Params); err != nil {
+				return
+			}
+			if _, err := m.Add(kt); err != nil {
+				return
+			}
+			catalogUsable[e.Name] = kt
+		}()
+		if catalogUsable[e.Name] == nil {
+			core.CountGlobal("catalog-entry-not-addable-on-this-tree")
+		}
+	}
+	kt := catalogUsable[e.Name]
+	if kt == nil {
+		return e, nil, false
+	}
+	return e, proto.Clone(kt).(*tinkpb.KeyTemplate), true
+}
+
+// simrngSwap installs a throw-away RNG and returns the function that puts the run's RNG back.
+func simrngSwap() func() { return simrng.Install(simrng.New(0x5c7a7c4)) }
 
 func parseParams(kt *tinkpb.KeyTemplate) (key.Parameters, error) {
 	return protoserialization.ParseParameters(kt)
